@@ -5,7 +5,7 @@ import random
 
 import vlib
 
-HEADER = """From Bingo Require Import Model.Pipeline.
+HEADER = """From Bingo Require Import Model.Pipeline Model.ArchPipeline.
 From Coq Require Import ZArith List Bool.
 Import ListNotations.
 (* genomes are integer codes; the fitness table maps code -> fitness code *)
@@ -33,9 +33,22 @@ Definition runner2 (c : nat * list Z * list (Z * option Z * bool) * nat * (nat *
   match island_op Z Z fit (fun g => g) Z.eqb 0%Z ea (mk p, age) op with
   | Ok (next, age') => 0%Z :: Z.of_nat age' :: enc_pop next
   | MissingRead => [1%Z] | StaleRead => [2%Z] | BadOracle => [3%Z]
+  end.
+(* a migration between two islands of an archipelago, from the real states of both before it *)
+Definition runner3 (c : nat * list Z * (list (Z * option Z * bool) * nat) * (list (Z * option Z * bool) * nat) *
+                        (list nat * list nat * list nat * list nat)) : list Z :=
+  let '(a, tbl, (p1, a1), (p2, a2), (keep1, leave1, keep2, leave2)) := c in
+  let fit := fun g : Z => nth (Z.to_nat g) tbl 0%Z in
+  let mk := map (fun t : Z * option Z * bool => let '(g, s, f) := t in mkInd Z Z g s f) in
+  let ea := match a with 0%nat => BaseEA | 1%nat => MuPlusLambda | 2%nat => MuCommaLambda | 3%nat => AgeFitnessEA | _ => CrowdingEA end in
+  match arch_run Z Z fit (fun g => g) Z.eqb 0%Z ea [(mk p1, a1); (mk p2, a2)] [AExchange Z Z 0 1 keep1 leave1 keep2 leave2] with
+  | Ok [(q1, b1); (q2, b2)] => (0%Z :: Z.of_nat b1 :: enc_pop q1) ++ ((-5)%Z :: Z.of_nat b2 :: enc_pop q2)
+  | Ok _ => [4%Z]
+  | MissingRead => [1%Z] | StaleRead => [2%Z] | BadOracle => [3%Z]
   end."""
 RUNNER = "runner"
 RUNNER2 = "runner2"
+RUNNER3 = "runner3"
 EAS = ["base", "mu+lambda", "mu,lambda", "agefitness", "crowding"]
 
 
@@ -46,6 +59,14 @@ def coq_case(c):
         vlib.clist(c["pop"], lambda t: "(%s, %s, %s)" % (vlib.cz(t[0]), vlib.copt(t[1]), vlib.cbool(t[2]))),
         vlib.clist(c["specs"], lambda t: "(%s, %s, %s)" % (nat(t[0]), vlib.clist(t[1], nat), vlib.cz(t[2]))),
         vlib.clist(c["chosen"], nat))
+
+
+def coq_case3(c):
+    nat = lambda x: "%d%%nat" % x  # noqa
+    trip = lambda t: "(%s, %s, %s)" % (vlib.cz(t[0]), vlib.copt(t[1]), vlib.cbool(t[2]))  # noqa
+    return "(%s, %s, (%s, %s), (%s, %s), (%s, %s, %s, %s))" % (
+        nat(c["ea"]), vlib.clist(c["table"]), vlib.clist(c["p1"], trip), nat(c["a1"]), vlib.clist(c["p2"], trip), nat(c["a2"]),
+        vlib.clist(c["keep1"], nat), vlib.clist(c["leave1"], nat), vlib.clist(c["keep2"], nat), vlib.clist(c["leave2"], nat))
 
 
 def coq_case2(c):
@@ -319,6 +340,9 @@ def impl_main(payload):
                     np.random.set_state(st_np)
                     random.setstate(st_py)
                     inc_before = {id(p): mon.snap(p) for p in partner.population}
+                    partner_pre_pop = list(partner.population)
+                    partner_pre = [mon.snap(p) for p in partner_pre_pop]
+                    partner_age = partner.generational_age
                     arch = SerialArchipelago.__new__(SerialArchipelago)
                     arch.islands, arch._num_islands = [isl, partner], 2
                     arch._coordinate_migration_between_islands()
@@ -329,6 +353,24 @@ def impl_main(payload):
                     if len(keep) + len(inc) != len(post_pop):
                         viol.append("after a migration the island holds an individual that came from neither partner")
                     island_case(3, pre, pre_age, [mon.snap(p) for p in post_pop], keep=keep, inc=inc)
+                    # both sides of the exchange through the archipelago model: who stayed, who left, in the order they ended up
+                    pos2 = {id(p): k for k, p in enumerate(partner_pre_pop)}
+                    post2 = list(partner.population)
+                    ex = dict(ea=ea_kind, p1=[[g, vc_(s_), bool(f)] for (g, s_, f) in pre], a1=pre_age,
+                              p2=[[g, vc_(s_), bool(f)] for (g, s_, f) in partner_pre], a2=partner_age,
+                              keep1=keep, leave2=[pos2[id(p)] for p in post_pop if id(p) in pos2],
+                              keep2=[pos2[id(p)] for p in post2 if id(p) in pos2], leave1=[pos[id(p)] for p in post2 if id(p) in pos])
+                    table = [0] * len(codes)
+                    for key, cdx in codes.items():
+                        table[cdx] = int(digit_value(list(key)))
+                    ex["table"] = table
+                    out3 = [0, isl.generational_age]
+                    for (g, s_, f) in [mon.snap(p) for p in post_pop]:
+                        out3 += [g, -1 if s_ is None else int(s_), 1 if f else 0]
+                    out3 += [-5, partner.generational_age]
+                    for (g, s_, f) in [mon.snap(p) for p in post2]:
+                        out3 += [g, -1 if s_ is None else int(s_), 1 if f else 0]
+                    results.append(dict(kind="exchange", case=ex, out=out3, viol=[]))
                 else:
                     isl.update_hall_of_fame()
                     island_case(1, pre, pre_age, [mon.snap(p) for p in isl.population])
@@ -541,6 +583,9 @@ def check(rep, proof):
     iops = [r for r in results if r["kind"] == "iop"]
     pairs2 = [(coq_case2(r["case"]), r["out"]) for r in iops]
     bad2, log2 = vlib.coq_compare("c05i", HEADER, RUNNER2, pairs2)
+    exch = [r for r in results if r["kind"] == "exchange"]
+    pairs3 = [(coq_case3(r["case"]), r["out"]) for r in exch]
+    bad3, log3 = vlib.coq_compare("c05x", HEADER, RUNNER3, pairs3)
     rep.coverage.update(
         evaluations=len(steps) + ag["runs"] + sc["runs"],
         distinct_nontrivial=len({repr(r["case"]) for r in steps if len(r["case"]["specs"]) >= 2}),
@@ -561,7 +606,7 @@ def check(rep, proof):
                             island_operation_kinds=dict((nm, sum(1 for r in iops if r["case"]["op"] == k))
                                                         for k, nm in enumerate(["reset_fitness", "best / hall-of-fame update",
                                                                                 "regenerate_population", "migration"])),
-                            island_disagreements=len(bad2)),
+                            island_disagreements=len(bad2), archipelago_exchanges=len(exch), exchange_disagreements=len(bad3)),
         agraph=dict(runs=ag["runs"], violations=len(ag["viol"])),
         scaled_genes=dict(runs=sc["runs"], violations=len(sc["viol"]), samples=sc["samples"]),
         oracle_violations=len(oracle_bad) + len(ag["viol"]) + len(sc["viol"]),
@@ -597,6 +642,14 @@ def check(rep, proof):
                       dict(relation="corr_C05_island (Model/Pipeline.v island_op vs bingo Island / SerialArchipelago migration)",
                            case=None if j is None else iops[j]["case"], implementation=None if j is None else iops[j]["out"],
                            model=mo, disagreements=len(bad2), log=log2[-1500:]), has_input=False)
+    if bad3 and not rep.violations:
+        first = bad3[0]
+        j = None if isinstance(first, tuple) else first
+        mo = None if j is None else vlib.coq_eval_one(HEADER, "%s %s" % (RUNNER3, pairs3[j][0]))
+        rep.violation("model and implementation disagree on a migration between two islands; property oracle found no failing input",
+                      dict(relation="corr_C05_exchange (Model/ArchPipeline.v AExchange vs SerialArchipelago migration)",
+                           case=None if j is None else exch[j]["case"], implementation=None if j is None else exch[j]["out"],
+                           model=mo, disagreements=len(bad3), log=log3[-1500:]), has_input=False)
     if not proof["ok"] and not rep.violations:
         rep.violation("proof obligation no longer checks: %s" % proof["broken"],
                       dict(theorem=proof["broken"], log=proof["log"][-3000:]), has_input=False)
